@@ -153,7 +153,13 @@ impl<T> RawTable<T> {
     /// While we try to make this incremental where possible, it may require all-at-once resizing.
     #[cfg_attr(feature = "inline-more", inline)]
     pub(crate) fn reserve(&mut self, additional: usize, hasher: impl Fn(&T) -> u64) {
-        let need = self.leftovers.as_ref().map_or(0, |t| t.table.len()) + additional;
+        // Saturate rather than wrap: a request that cannot be represented can never be satisfied
+        // in place, and is rejected as a capacity overflow when we try to grow instead.
+        let need = self
+            .leftovers
+            .as_ref()
+            .map_or(0, |t| t.table.len())
+            .saturating_add(additional);
         if self.table.capacity() - self.table.len() > need {
             // We can accommodate the additional items without resizing, so all is well.
             if cfg!(debug_assertions) {
@@ -196,7 +202,13 @@ impl<T> RawTable<T> {
         additional: usize,
         hasher: impl Fn(&T) -> u64,
     ) -> Result<(), TryReserveError> {
-        let need = self.leftovers.as_ref().map_or(0, |t| t.table.len()) + additional;
+        // Saturate rather than wrap: a request that cannot be represented can never be satisfied
+        // in place, and is rejected as a capacity overflow when we try to grow instead.
+        let need = self
+            .leftovers
+            .as_ref()
+            .map_or(0, |t| t.table.len())
+            .saturating_add(additional);
         if self.table.capacity() - self.table.len() > need {
             // we can accommodate the additional items without resizing, so all good
             if cfg!(debug_assertions) {
@@ -481,10 +493,13 @@ impl<T> RawTable<T> {
         // We also need to make sure we can fit the additional capacity required for `extra`.
         // Normally, that'll be handled by `inserts`, but not always!
         let add = usize::max(extra, inserts);
+        // `add` may be as large as the caller pleases; saturate so that hashbrown reports the
+        // capacity overflow (an `Err`, or a panic in the infallible case) instead of wrapping.
+        let new_capacity = need.saturating_add(inserts).saturating_add(add);
         let new_table = if fallible {
-            raw::RawTable::try_with_capacity(need + inserts + add)?
+            raw::RawTable::try_with_capacity(new_capacity)?
         } else {
-            raw::RawTable::with_capacity(need + inserts + add)
+            raw::RawTable::with_capacity(new_capacity)
         };
         let old_table = mem::replace(&mut self.table, new_table);
         if old_table.len() != 0 {
